@@ -357,6 +357,10 @@ PAUSE_PAIRS = [
     ("empty", [], _psm("p1", "f1", "d1"), _psm("p1", "f1", "d2")),
     ("p1+doc", [_psm("p1", "f1", "d1")], _psm("p1", "f1", "d2"), {"op": "dmeta", "pid": "p1", "fmt": "f1"}),
     ("empty", [], _pst("p1", "A"), _pst("p1", "B")),
+    # two taggers of ONE pid to different cids: excluded by the reference-pid claims only (stores are also serialised by
+    # the object-pid claims, same-cid taggers by the cid claims)
+    ("A,B-unreferenced", [_pst(None, "A"), _pst(None, "B")], _ptag("p1", "A"), _ptag("p1", "B")),
+    ("p1->A", [_pst("p1", "A")], {"op": "delete", "pid": "p1"}, _ptag("p1", "B")),
 ]
 
 
